@@ -131,6 +131,8 @@ def selftest(ctx, trace):
 def check(ctx):
     prop = ctx.prop
     ctx.design("RangeLease.tla", "RangeLease.cfg")
+    if not ctx.quick:
+        ctx.proof("RangeLeaseProof")     # every number of clients / addresses / restarts: unique, sticky, table restores what was replied (design only)
     probe = ["-probe"] if prop == "C03" else []
     shards = min(core.NCPU - 2, 14)
     paths = []
